@@ -44,6 +44,33 @@ service Svc { rpc Get(Outer) returns (Other); }
 """
 
 
+SHOP_NS = ["alpha", "beta", "gamma", "delta", "eps", "zeta", "eta"]
+
+
+def shop_thrift(put):
+    """many sibling modules below one first segment (shop.alpha ... shop.eta), the same `Common` in each of them"""
+    incs = []
+    for n in SHOP_NS:
+        put(f"shop_{n}.thrift", f"namespace rs shop.{n}\nstruct Common {{ 1: i32 id, 2: string name }}\nstruct User_{n} {{ 1: Common c, 2: list<Common> cs }}\n"
+                                f"enum Kind_{n} {{ A = 1, B = 2 }}\nconst set<string> TAGS_{n} = [\"a\", \"b\", \"c\", \"d\", \"e\"]\n"
+                                f"struct Conf_{n} {{ 1: set<i32> ids = [5, 4, 3, 2, 1], 2: map<string, i32> m = {{\"x\": 1, \"y\": 2, \"z\": 3}}, 3: set<string> tags = [\"q\", \"r\", \"s\", \"t\"] }}\n")
+        incs.append(f'include "shop_{n}.thrift"')
+    body = "\n".join(incs) + "\nnamespace rs shop.main\nstruct All {\n" + "\n".join(f"  {i + 1}: shop_{n}.User_{n} u{i}," for i, n in enumerate(SHOP_NS)) + "\n}\n"
+    body += "service Shop { All get(1: shop_alpha.Common c) }\n"
+    return put("shop_main.thrift", body)
+
+
+def shop_proto(put):
+    incs = []
+    for n in SHOP_NS[:5]:
+        put(f"shopp_{n}.proto", f'syntax = "proto3";\npackage shop.{n};\nmessage Common {{ int32 id = 1; string name = 2; }}\n'
+                                f'message User {{ Common c = 1; repeated Common cs = 2; map<string, Common> by = 3; }}\nenum Kind {{ A = 0; B = 1; }}\n')
+        incs.append(f'import "shopp_{n}.proto";')
+    body = 'syntax = "proto3";\n' + "\n".join(incs) + "\npackage shop.main;\nmessage All {\n" + "\n".join(f"  shop.{n}.User u{i} = {i + 1};" for i, n in enumerate(SHOP_NS[:5])) + "\n}\n"
+    body += "service Shop { rpc Get(shop.alpha.Common) returns (All); }\n"
+    return put("shopp_main.proto", body)
+
+
 def corpus(workdir, seed, tier):
     """-> list of (name, kind, [idl paths], [flag sets])"""
     src = os.path.join(workdir, "src")
@@ -58,6 +85,8 @@ def corpus(workdir, seed, tier):
     put("multi_b.thrift", MULTI_B)
     out.append(("multi", "thrift", [a]))
     out.append(("nested", "protobuf", [put("nested.proto", NESTED_PROTO)]))
+    out.append(("shop", "thrift", [shop_thrift(put)]))
+    out.append(("shopp", "protobuf", [shop_proto(put)]))
     for d in idlgen.fixed_docs():
         out.append((d["name"], "thrift", [put(d["name"] + ".thrift", idlgen.render(d))]))
     r = random.Random(seed * 17 + 5)
@@ -88,6 +117,10 @@ def run_gen(kind, idls, outdir, flags, threads, env):
     shutil.rmtree(outdir, ignore_errors=True)
     os.makedirs(outdir)
     out = os.path.join(outdir, "gen.rs")
+    if "--workspace" in flags:
+        out = os.path.join(outdir, "ws")
+        os.makedirs(out)
+        open(os.path.join(out, "Cargo.toml"), "w").close()
     e = dict(env, RAYON_NUM_THREADS=str(threads))
     p = subprocess.run([GENTOOL, kind, out] + flags + ["--"] + idls, env=e, stdout=subprocess.PIPE, stderr=subprocess.STDOUT, text=True, timeout=600)
     return p.returncode, p.stdout[-600:]
@@ -171,7 +204,12 @@ def step(cfg, tier, seed, workdir, env):
     os.makedirs(work)
     evaluations, distinct, samples, oracle_fails, disagreements = 0, [], [], [], []
     for name, kind, idls in corpus(work, seed, tier):
-        for mode, flags in (("single", []), ("split", ["--split"])):
+        modes = [("single", []), ("split", ["--split"])]
+        if name in ("shop", "multi"):
+            modes += [("dedup", ["--dedup=Common", "--dedup=Leaf"]), ("dedup-split", ["--split", "--dedup=Common"])]
+        if name in ("shop", "shopp", "multi", "nested") or tier == "thorough":
+            modes += [("workspace", ["--workspace"]), ("workspace-split", ["--workspace", "--split"])]
+        for mode, flags in modes:
             hashes = []
             for k in range(runs):
                 outdir = os.path.join(work, f"{name}-{mode}-{k}")
@@ -191,14 +229,14 @@ def step(cfg, tier, seed, workdir, env):
                         break
                 # model tie: canonical module order / split file names
                 gen0 = os.path.join(work, f"{name}-{mode}-0", "gen.rs")
-                if mode == "single":
+                if mode in ("single", "dedup"):
                     toks = module_tokens(gen0)
                     req, want, got = model_order(toks, r)
                     evaluations += 1
                     if want != got:
                         disagreements.append(("C17", req, want, got))
                     samples.append({"input": name, "mode": mode, "files": len(hashes[0]), "module_tokens": want[:200]})
-                else:
+                elif mode in ("split", "dedup-split"):
                     for req, want, got in split_names(os.path.join(work, f"{name}-{mode}-0"), r):
                         evaluations += 1
                         if want != got:
